@@ -25,6 +25,7 @@ type Profile struct {
 	PRollout, PExperiment                     float64
 	PMalformed                                float64
 	PDocNoise                                 float64
+	PLongValues                               float64 // clauses with more than 100 values, on the operators whose operands are pre-parsed
 	PSegBucket                                float64 // extra weight on weighted segment rules with a bucket-by attribute, some of them invalid references
 	PNestedSeg                                float64 // a weighted segment rule that first looks into another segment, split point next to the context's bucket
 	PSingleMal                                float64 // cases that are one well-formed flag with exactly one malformation, certainly reached
@@ -412,13 +413,46 @@ func (w *World) genClause(segOK bool) *J {
 		nv = 1
 	}
 	long := false
-	if r.P(0.015) { // more clause values than any pre-allocation or cap; only the last one is likely to match
+	if r.P(0.015 + p.PLongValues) { // more clause values than any pre-allocation or cap; only the last one is likely to match
 		nv, long = []int{101, 130, 257}[r.Intn(3)], true
+		if r.P(0.7) && !path { // on an operator whose operands are parsed ahead of time, against an attribute of that type
+			pair := [][2]string{{"matches", "email"}, {"semVerEqual", "ver"}, {"semVerGreaterThan", "ver"}, {"before", "date"}, {"after", "date"}}[r.Intn(5)]
+			for _, sp := range w.ctx.Singles {
+				for _, kv := range sp.Attrs {
+					if kv.K == pair[1] {
+						op, attr, kind, effKind = pair[0], pair[1], sp.Kind, sp.Kind
+						if kind == "user" && r.P(0.5) {
+							kind = ""
+						}
+					}
+				}
+			}
+		}
 	}
 	for i := 0; i < nv; i++ {
 		var v *J
 		if (!long && r.P(0.45)) || (long && i == nv-1) {
 			v = w.ctxValueFor(effKind, attr, path)
+		}
+		if long { // fillers that certainly do not match, so that the decision rests on the last value
+			switch op {
+			case "matches":
+				v = pickJ(i == nv-1, JStr("."), JStr(fmt.Sprintf("zz-no-match-%d\\d", i)))
+			case "semVerEqual":
+				v = pickJ(i == nv-1 && v != nil, v, JStr(fmt.Sprintf("987.6.%d", i)))
+			case "semVerGreaterThan":
+				v = pickJ(i == nv-1, JStr("0.0.0-a"), JStr(fmt.Sprintf("987.6.%d", i)))
+			case "semVerLessThan":
+				v = pickJ(i == nv-1, JStr("987.6.5"), JStr("0.0.0-a"))
+			case "before":
+				v = pickJ(i == nv-1, JStr("9999-12-31T23:59:59Z"), JNum(float64(-62167219200000+int64(i))))
+			case "after":
+				v = pickJ(i == nv-1, JStr("0000-01-01T00:00:00Z"), JNum(float64(253402300799000-int64(i))))
+			default:
+				if i < nv-1 {
+					v = JStr(fmt.Sprintf("zz-filler-%d", i))
+				}
+			}
 		}
 		if (attr == "kind" || attr == "/kind") && r.P(0.8) { // real kinds, the pseudo-kind "multi", and fragments of both for the string operators
 			v = JStr(r.Pick([]string{"user", "org", "dev", "multi", "mu", "ult", "i", "^m", "use", "multi"}))
@@ -684,6 +718,13 @@ func (w *World) genRollout(flagKey, salt string, nvars int) *J {
 }
 
 func (r *Rng) Pick2(xs []int64) int64 { return xs[r.Intn(len(xs))] }
+
+func pickJ(c bool, a, b *J) *J {
+	if c {
+		return a
+	}
+	return b
+}
 
 func (w *World) genVorr(o *J, flagKey, salt string, nvars int) {
 	r, p := w.r, w.p
